@@ -484,6 +484,8 @@ struct Pools {
     incoming_calls: Vec<(usize, u32)>,
     /// caller serials in use: (conn, serial)
     outgoing_calls: Vec<(usize, u32)>,
+    /// caller serials whose call has been answered (possibly by the caller's own abort, with the callee still working on it)
+    freed_calls: Vec<(usize, u32)>,
     /// introspection queries delivered to a connection: (conn, serial)
     incoming_iqueries: Vec<(usize, u32)>,
 }
@@ -534,6 +536,8 @@ struct Scenario<'a> {
     sim: Sim,
     names: Names,
     pools: Pools,
+    /// the caller serial of a call that has just been aborted by its caller: the next request uses it for a new call
+    reuse_next: Option<(usize, u32)>,
     rng: Rng,
     out: &'a mut Out,
     serial: u32,
@@ -706,6 +710,9 @@ impl<'a> Scenario<'a> {
                     self.out.fail("C02", "reply for a serial this connection never called with", &self.trace.join(" / "));
                 }
                 self.pools.outgoing_calls.retain(|k| *k != key);
+                if self.pools.freed_calls.len() < 16 && !self.pools.freed_calls.contains(&key) {
+                    self.pools.freed_calls.push(key);
+                }
             }
             _ => {}
         }
@@ -777,7 +784,17 @@ impl<'a> Scenario<'a> {
         }
         let s = self.next_serial();
         let n_uuid = 4;
-        let anyc = self.conn_for(None, 0);
+        let mut anyc = self.conn_for(None, 0);
+        // a caller that has aborted a call may use the serial again at once, while the callee still works on the old call
+        let mut forced_serial = None;
+        if let Some((c, n)) = self.reuse_next.take() {
+            if !self.pools.services.is_empty() && self.live_conns().contains(&c) && self.rng.chance(2, 3) {
+                choice = 7;
+                anyc = c;
+                forced_serial = Some(n);
+                self.out.count("call.serial_reused_after_abort");
+            }
+        }
         match choice {
             0 | 1 => {
                 let u = self.rng.below(n_uuid);
@@ -831,7 +848,20 @@ impl<'a> Scenario<'a> {
                 let version = self.sim.conns[c].version;
                 // caller serial: mostly fresh, sometimes (rarely) a pending one again
                 let mine: Vec<u32> = self.pools.outgoing_calls.iter().filter(|k| k.0 == c).map(|k| k.1).collect();
-                let cs = if !mine.is_empty() && self.rng.chance(1, 40) { *self.rng.pick(&mine) } else { s };
+                let freed: Vec<u32> = self.pools.freed_calls.iter().filter(|k| k.0 == c).map(|k| k.1).collect();
+                let cs = if let Some(n) = forced_serial {
+                    n
+                } else if !mine.is_empty() && self.rng.chance(1, 40) {
+                    *self.rng.pick(&mine)
+                } else if !freed.is_empty() && self.rng.chance(1, 5) {
+                    // a serial whose call has been answered is used again (the callee may still answer the old call)
+                    let x = *self.rng.pick(&freed);
+                    self.pools.freed_calls.retain(|k| *k != (c, x));
+                    self.out.count("call.serial_reused");
+                    x
+                } else {
+                    s
+                };
                 let f = self.rng.below(3) as u32;
                 let p = payload(&mut self.rng);
                 if !self.pools.outgoing_calls.contains(&(c, cs)) {
@@ -876,6 +906,9 @@ impl<'a> Scenario<'a> {
                 } else {
                     (anyc, self.rng.below(5) as u32)
                 };
+                if self.rng.chance(1, 2) {
+                    self.reuse_next = Some((c, serial));
+                }
                 (c, Message::AbortFunctionCall(AbortFunctionCall { serial }), format!("abortFunctionCall {}", serial))
             }
             16 | 17 | 18 => {
@@ -1159,6 +1192,7 @@ impl<'a> Scenario<'a> {
         self.pools.incoming_calls.retain(|k| k.0 != c);
         self.pools.incoming_iqueries.retain(|k| k.0 != c);
         self.pools.outgoing_calls.retain(|k| k.0 != c);
+        self.pools.freed_calls.retain(|k| k.0 != c);
         let gone: Vec<Uuid> = self.pools.objects.iter().filter(|x| x.1 == c).map(|x| x.0)
             .chain(self.pools.services.iter().filter(|x| x.1 == c).map(|x| x.0))
             .chain(self.pools.listeners.iter().filter(|x| x.1 == c).map(|x| x.0)).collect();
@@ -1306,6 +1340,7 @@ fn run_scenario(out: &mut Out, seed: u64, steps: u64, profile: &str) {
         sim: Sim::new(),
         names: Names::new(),
         pools: Pools::default(),
+        reuse_next: None,
         rng: Rng::new(seed),
         out,
         serial: 100,
